@@ -121,6 +121,13 @@ func (c *Ctx) pathLengthsTable() {
 			if nodeContains(s, rec.Pos()) {
 				break
 			}
+			// a skip guard (`if child == prev { continue }`) selects which neighbours are walked, not
+			// what a walked branch contributes: it is not part of the program that computes the value
+			if is, ok := s.(*ast.IfStmt); ok && is.Else == nil && is.Init == nil && len(is.Body.List) == 1 && !mentions(info, is.Cond, metric) {
+				if br, ok := is.Body.List[0].(*ast.BranchStmt); ok && br.Tok == token.CONTINUE {
+					continue
+				}
+			}
 			program = append(program, s)
 			if as, ok := s.(*ast.AssignStmt); ok && len(as.Lhs) == 1 && edgeType(info.TypeOf(as.Lhs[0])) {
 				eName = identObj(info, as.Lhs[0]).Name()
@@ -387,6 +394,39 @@ func (c *Ctx) avgMatrix() {
 	if matrix == nil || chanLoop == nil {
 		c.Undecided("LF", name, fi.Decl.Pos(), "result matrix / loop over the trees not found")
 		return
+	}
+	// the first tree initialises the accumulator: the matrix is assigned from ToDistanceMatrix inside
+	// the loop exactly where it is still nil (anywhere else the first tree is added to a nil matrix, or
+	// every tree restarts the sum)
+	{
+		okInit, nInit := false, 0
+		var at token.Pos = chanLoop.Pos()
+		ast.Inspect(chanLoop.Body, func(n ast.Node) bool {
+			as, ok := n.(*ast.AssignStmt)
+			if !ok || len(as.Rhs) != 1 || len(as.Lhs) < 1 || identObj(info, as.Lhs[0]) != matrix {
+				return true
+			}
+			cl, ok := unparen(as.Rhs[0]).(*ast.CallExpr)
+			if !ok || !isRepoFunc(calleeOf(info, cl), "tree", "Tree", "ToDistanceMatrix") {
+				return true
+			}
+			nInit++
+			at = as.Pos()
+			if conds, okc := c.pathConds(info, fi.Decl.Body, as, true); okc {
+				for _, cd := range conds {
+					if cd.Expr == nil {
+						continue
+					}
+					if o, nonNil, isNil := nilTest(info, cd.Expr); isNil && o == matrix && (nonNil == cd.Neg) {
+						okInit = true
+					}
+				}
+			}
+			return true
+		})
+		if nInit > 0 {
+			c.Check(okInit && nInit == 1, "LF", name+"/first-tree-initialises", at, "the accumulator is taken from the first tree, where it is still nil", "the accumulated matrix is assigned from a tree's matrix somewhere else than under `matrix == nil`: the first tree is added to a nil matrix, or every tree restarts the sum").Clause = clause
+		}
 	}
 	// stores into matrix[a][b]: one accumulation (+= m2[a][b], or = itself + m2[a][b]) and one division
 	env := c.newLFEnv(info, fi.Decl.Body)
@@ -657,6 +697,61 @@ func (c *Ctx) cutEdges() {
 			okKept = false
 		}
 		dirs[c.canon(info, call.Args[1], o)+">"+c.canon(info, call.Args[2], o)] = true
+	}
+	// a group is reported exactly when the fill found a tip: `bags = append(bags, bag)` under Size() > 0
+	for _, call := range callsIn(loop.Body, false) {
+		id, ok := unparen(call.Fun).(*ast.Ident)
+		if !ok || id.Name != "append" || len(call.Args) != 2 {
+			continue
+		}
+		bagObj := identObj(info, call.Args[1])
+		if bagObj == nil {
+			continue
+		}
+		// only the bag handed to the fill (not the singleton groups of the removed branches)
+		filled := false
+		for _, rc := range callsIn(loop.Body, false) {
+			if calleeOf(info, rc) == rec.Obj && len(rc.Args) > 0 {
+				for _, a := range rc.Args {
+					if identObj(info, a) == bagObj {
+						filled = true
+					}
+				}
+			}
+		}
+		if !filled {
+			continue
+		}
+		conds, okc := c.pathConds(info, top.Decl.Body, call, true)
+		if !okc {
+			continue
+		}
+		var rel []cond
+		for _, cd := range conds {
+			if cd.Expr != nil && mentions(info, cd.Expr, bagObj) {
+				rel = append(rel, cd)
+			}
+		}
+		so := &canonOpts{subst: map[types.Object]string{bagObj: "$BAG"}}
+		code := c.condsToBexpr(info, rel, so)
+		var sizeTerm string
+		terms, atoms := map[string]bool{}, map[string]bool{}
+		code.collect(terms, atoms)
+		for t := range terms {
+			if strings.HasPrefix(t, "$BAG") || strings.HasPrefix(t, "len($BAG") {
+				sizeTerm = t
+			}
+		}
+		if sizeTerm == "" {
+			c.Violation("GF", "tree.Tree.CutEdgesMaxLength/non-empty-groups", call.Pos(), "the group filled by the flood fill is reported without a test that it holds a tip: a component made of inner nodes only yields an empty group").Clause = clause
+			continue
+		}
+		eq, wit, _, err := gfEquiv(code, intCmp(sizeTerm, token.GEQ, 1))
+		if err != nil {
+			c.Undecided("GF", "tree.Tree.CutEdgesMaxLength/non-empty-groups", call.Pos(), err.Error())
+		} else {
+			c.Check(eq, "GF", "tree.Tree.CutEdgesMaxLength/non-empty-groups", call.Pos(), "a group is reported iff it holds at least one tip", "the filled group is reported under "+code.String()+", must be reported exactly when it holds at least one tip: "+wit).Clause = clause
+		}
 	}
 	c.Check(okKept && dirs["$E.left>$E.right"] && dirs["$E.right>$E.left"] && len(dirs) == 2, "SYM", "tree.Tree.CutEdgesMaxLength/kept-both-directions", loop.Pos(), "a branch shorter than the threshold is explored from both of its ends", fmt.Sprintf("a kept branch (length < threshold) is not explored from both ends (directions %v): tips on one side are missing from the group", sortedKeys(dirs))).Clause = clause
 	ends := map[string]bool{}
